@@ -129,20 +129,28 @@ Section PP.
     | EAtom true n => cat [s2l "'"; str_payload n; s2l "'"]
     | ENested x => cat [s2l "("; pp x; s2l ")"]
     | ETuple l => cat [s2l "("; commas l; s2l ")"]
-    | EPre k x => op_text k ++ pp x                       (* "{op}{expr}": no blank *)
+    | EPre k x =>                                          (* "{op}{expr}"; "{op} {expr}" when the operand
+                                                              starts with a symbolic prefix operator itself *)
+        match x with
+        | EPre _ _ => cat [op_text k; sp; pp x]
+        | _ => op_text k ++ pp x
+        end
     | ENot x => s2l "NOT " ++ pp x
     | EBin k l r => cat [pp l; sp; op_text k; sp; pp r]
     | EAnyAll k q l r => cat [pp l; sp; op_text k; sp; quant_text q; s2l "("; pp r; s2l ")"]
-    | EPostfix x => pp x ++ s2l "!"                       (* "{expr}{op}" *)
+    | EPostfix x =>                                        (* "{expr}{op}"; "{expr} {op}" after another postfix ! *)
+        match x with
+        | EPostfix _ => pp x ++ s2l " !"
+        | _ => pp x ++ s2l "!"
+        end
     | EIs neg w x => pp x ++ is_text neg w
     | EIsDF neg l r => cat [pp l; s2l " IS "; not_text neg; s2l "DISTINCT FROM "; pp r]
     | EAtTz l r => cat [pp l; s2l " AT TIME ZONE "; pp r]
     | ECast x t => cat [pp x; s2l "::"; type_text t]
     | ELike kd neg any x p esc =>
-        let anyt := match kd, any, esc with
-                    | LILike, true, Some _ => s2l "ANY"   (* as written in Display: no blank *)
-                    | (LLike | LILike), true, _ => s2l "ANY "
-                    | _, _, _ => []
+        let anyt := match kd, any with
+                    | (LLike | LILike), true => s2l "ANY "
+                    | _, _ => []
                     end in
         cat [pp x; sp; not_text neg; like_text kd; sp; anyt; pp p;
              match esc with
